@@ -374,6 +374,83 @@ func c19Fault(fail []int) vx.Scenario {
 		}}
 }
 
+// c19Outage: from the k-th service call of the cycle on every call fails (an outage that outlasts the
+// response deadline): every participant must still be answered.
+func c19Outage(k int) vx.Scenario {
+	return vx.Scenario{Name: fmt.Sprintf("c19/outage-from/%d", k), PB: 0, Single: true, MaxSteps: 400000, MaxTime: 10 * time.Minute,
+		Setup: func(s *vs.Sched) func(*vs.Result) vx.Exec {
+			c := &c19Client{name: "c1", path: "/doc", body: payload(1, 50)}
+			var statuses []string
+			started := false
+			nops := 0
+			var elapsed time.Duration
+			s.Thread("client", func() {
+				vs.Wait("backend registered", unsafe.Pointer(c), func() bool { return started })
+				c.res = &reply{}
+				t0 := s.Now()
+				r := call(endUser(u1), "POST", c.path, map[string]string{"X-Client": c.name}, c.body)
+				elapsed = s.Now() - t0
+				c.res = r
+			})
+			s.Thread("agent", func() {
+				vae.Reset()
+				addBackend(types.Backend{BackendID: "b1", BackendUser: a1, EndUser: u1, PathPrefixes: []string{"/"}})
+				call(agent(a1), "GET", "/agent/pending", agentHdr("b1", ""), nil)
+				w := vae.W()
+				w.Fault = func(op vae.Op) error {
+					i := nops
+					nops++
+					if i >= k {
+						return errors.New("injected: service unavailable")
+					}
+					return nil
+				}
+				vs.Touch(unsafe.Pointer(c))
+				started = true
+				ids := listUntil(a1, "b1", 1)
+				if len(ids) == 0 {
+					statuses = append(statuses, "notlisted")
+					return
+				}
+				f := call(agent(a1), "GET", "/agent/request", agentHdr("b1", ids[0]), nil)
+				statuses = append(statuses, fmt.Sprintf("fetch:%d", f.status))
+				statuses = append(statuses, "respond:pending")
+				p := call(agent(a1), "POST", "/agent/response", agentHdr("b1", ids[0]), wireResponse(200, []byte("resp"), "c1"))
+				statuses[len(statuses)-1] = fmt.Sprintf("respond:%d", p.status)
+			})
+			return func(r *vs.Result) vx.Exec {
+				var x vx.Exec
+				base(r, &x)
+				for _, b := range r.Blocked {
+					if len(r.Panics) == 0 {
+						x.Violations = append(x.Violations, fmt.Sprintf("HANG: with every service call from number %d of the cycle on failing, %s never returned: %s (progress: %v)", k, b.Thread, b.Op, statuses))
+					}
+				}
+				if r.Horizon && len(x.Violations) == 0 {
+					x.Violations = append(x.Violations, fmt.Sprintf("HANG: with every service call from number %d of the cycle on failing, the run did not end within the step bound (progress: %v)", k, statuses))
+				}
+				st := -1
+				if c.res != nil && c.res.done {
+					st = c.res.status
+					switch st {
+					case 200:
+						if string(c.res.body) != "resp" {
+							x.Violations = append(x.Violations, fmt.Sprintf("WRONG-RESPONSE: client got 200 with %q during an outage from call %d", clip(string(c.res.body)), k))
+						}
+					case 404, 500, 504:
+					default:
+						x.Violations = append(x.Violations, fmt.Sprintf("STATUS: client answered %d during an outage from call %d", st, k))
+					}
+					if elapsed > 40*time.Second {
+						x.Violations = append(x.Violations, fmt.Sprintf("LATE: the client was only answered after %v during an outage from call %d (the response deadline is 30 s)", elapsed, k))
+					}
+				}
+				x.Obs = fmt.Sprintf("outage from %d: %v client:%d after %v ops:%d", k, statuses, st, elapsed, nops)
+				return x
+			}
+		}}
+}
+
 // c19Store: write and read back one response through the real caching + persistent store,
 // under all interleavings of the concurrent part writes.
 func c19Store(n int, pb int) vx.Scenario {
@@ -459,6 +536,10 @@ func c19Scenarios(th bool) []vx.Scenario {
 		for _, ord := range [][]string{{"c1", "c2"}, {"c2", "c1"}, {"c2"}, {"wrong", "c1"}, {}} {
 			out = append(out, c19Conc(fmt.Sprintf("two=%v/%v", two, ord), two, ord, pb))
 		}
+	}
+	// outages: from the k-th service call of the cycle on, every call fails
+	for k := 0; k < 14; k++ {
+		out = append(out, c19Outage(k))
 	}
 	// faults: every single failing service call of the cycle, every pair
 	n := 40
